@@ -165,7 +165,8 @@ def run_ser(case):
         flat.extend(e.ravel().tolist())
         off += math.prod(e.shape)
     vrows = v.tolist() if v.ndim == 2 else []
-    if v.dtype != np.uint64 or (len(elems) > 0 and v.shape != (len(elems), elems[0].ndim + 1)):
+    if v.dtype != np.uint64 or v.ndim != 2 or v.shape[0] != len(elems) or \
+            (len(elems) > 0 and v.shape != (len(elems), elems[0].ndim + 1)):
         fails.append(("C11:values-table-shape", f"values table has dtype {v.dtype} shape {v.shape}", obs["ser"], None))
     if vrows != rows:
         key = "C11:offsets-not-contiguous" if [r[1:] for r in vrows] == [r[1:] for r in rows] else "C11:values-table-wrong"
@@ -430,7 +431,7 @@ def run_store(case):
     except Exception as ex:  # noqa: BLE001
         o = {"exc": exc_name(ex), "msg": str(ex)[:200]}
         fails.append(("C11:store-raises", f"writing/reading a normalised var-length property raised {exc_name(ex)}", o, "ok"))
-        return {"store": o}, fails
+        return {"store": o, "construct": obs}, fails
     o = {"values": enc_arr(v), "data": enc_arr(d), "missing": stored_missing}
     vals = p["values"]
     flags = obs["ok"]["flags"]
